@@ -139,8 +139,19 @@ def run(item):
                 ch.inconclusive.append({'label': lab, 'why': 'solver model did not reproduce on the real code (feasible=%s, worst=%.3g)' % (feas, worst)})
         else:
             ch.inconclusive.append({'label': lab, 'why': 'solver ' + r})
-    # twin: without the certificate rows the bound can be violated (the hypotheses matter)
+    # twin: with only the equality rows (dynamics) as hypotheses the bound can be violated: the inequality rows matter
     twins_ok = twins_bad = 0
+    if item.get('twin', True) and infc:
+        s2 = z3.Solver()
+        s2.set('timeout', 10000)
+        s2.add(*[(t_ == 0) for k, t_, r in atoms if k == 'eq'])
+        s2.add(*[emb(trz.tc[k + 1]) - emb(trz.tc[k]) > 0 for k in range(N)])
+        c0 = infc[0]
+        s2.add(z3.Or(*[(v > 0) if c0.op == '<=' else (v < 0) for v in ex[0]]))
+        if str(s2.check()) == 'sat':
+            twins_ok += 1
+        else:
+            twins_bad += 1
     r_ = result(I, ch, {'violations': viol, 'twins_ok': twins_ok, 'twins_bad': twins_bad, 'shape': '%s|%s|%s' % (cfg.tag(), spec.T[0], spec.note),
                         'sample': {'cfg': cfg.tag(), 'model': spec.note, 'T': spec.T[0], 'rows': I.nlp.ng, 'refined_points': len(ex[0]), 'constraints': [(repr(c.lhs), c.op, repr(c.rhs)) for c in infc]}})
     if viol:
